@@ -7,6 +7,8 @@
                                             as instantiated by tuple_union / tuple_intersection / tuple_a_not_b
                                             (internal_policy adapters: the policy combines the summaries of matching keys)
    tuple/include/array_tuple_*.hpp          array-of-doubles = the instance whose policies add column-wise.
+   The shared set-operation code is modelled AS REPAIRED by fixes/02_intersection_empty_order.patch and
+   fixes/02_union_empty_theta.patch (property C02; the old behaviour is documented in coq/ThetaSetDefs.v / Regression_thetaset.v).
    Everything up to [End SetOps] is polymorphic in the summary type S, the update type U and the policies
    ([create], [upd], [comb]: no algebraic assumption); std::nth_element is the abstract [sel] of ThetaDefs.v. *)
 From Coq Require Import ZArith NArith List Bool.
@@ -106,7 +108,7 @@ Section SetOps.
 
   Definition union_result (u : union_st) (ordered : bool) : compact :=
     let t := u_tab u in
-    if is_empty t then mk_cs true true (u_theta u) [] else
+    if is_empty t then mk_cs true true max_theta [] else      (* repaired code: fixes/02_union_empty_theta.patch *)
     let th := N.min (u_theta u) (theta t) in
     let ents := if theta t <=? u_theta u then entries S t
                 else filter (fun e => fst e <? th) (entries S t) in
@@ -151,13 +153,14 @@ Section SetOps.
     else if negb (i_valid st) then mk_inter true e th (c_entries c)         (* first update: copy or move *)
     else
       match inter_scan (c_ordered c) th (i_ents st) (c_entries c) with
-      | [] => mk_inter true (e || (th =? max_theta)) th []
+      | [] => mk_inter true e th []                (* repaired code (fixes/02_intersection_empty_order.patch): not latched *)
       | m => mk_inter true e th m
       end.
 
   Definition inter_result (st : inter_st) (ordered : bool) : option compact :=
     if i_valid st then
-      Some (mk_cs (i_empty st) ordered (i_theta st) (if ordered then msort fst (i_ents st) else i_ents st))
+      Some (mk_cs (i_empty st || ((length (i_ents st) =? 0)%nat && (i_theta st =? max_theta))) ordered (i_theta st)
+                  (if ordered then msort fst (i_ents st) else i_ents st))
     else None.
 
   (* ---- A-not-B (theta_set_difference_base::compute) ---- *)
@@ -204,7 +207,8 @@ Arguments i_valid {S}. Arguments i_empty {S}. Arguments i_theta {S}. Arguments i
    Summary = list Z for both flavours, selected by [pol]:
      pol = 0  "log" summary (instrumented, non-commutative): create = [-7]; update appends the value;
               union policy  a ++ [-8] ++ b ; intersection policy a ++ [-9] ++ b
-     pol = n  array of n doubles (integral values): create = n zeros; update / union / intersection add column-wise *)
+     pol = n  array of n doubles (integral values): create = n zeros; update / union / intersection add column-wise
+     pol = -1 arithmetic summary (int64_t) with the default policies: Summary() = 0, +=  — a one-column array *)
 Local Open Scope Z_scope.
 
 Definition sm := list Z.
@@ -215,7 +219,8 @@ Fixpoint zip_add (a b : list Z) : list Z :=
   | _, _ => a
   end.
 
-Definition p_create (pol : Z) : sm := if pol =? 0 then [-7] else repeat 0 (zn pol).
+Definition arity (pol : Z) : Z := if pol =? 0 then 1 else Z.abs pol.
+Definition p_create (pol : Z) : sm := if pol =? 0 then [-7] else repeat 0 (zn (Z.abs pol)).
 Definition p_upd (pol : Z) (s : sm) (v : list Z) : sm := if pol =? 0 then s ++ v else zip_add s v.
 Definition p_comb (pol : Z) (sep : Z) (a b : sm) : sm := if pol =? 0 then a ++ sep :: b else zip_add a b.
 Definition sep_union : Z := -8.
@@ -263,7 +268,7 @@ Definition drop_if (mv : Z) (s : st) (r : Z) : st := if mv =? 0 then s else reg_
 Definition step (s : st) (o e : line) : st * outline :=
   match o with
   | 1 :: r :: pol :: lgk :: rfz :: pbits :: seed :: _ =>      (* update tuple sketch builder *)
-      if builder_ok lgk rfz pbits && (0 <=? pol) && (pol <=? 255) then
+      if builder_ok lgk rfz pbits && (-1 <=? pol) && (pol <=? 255) then
         let th0 := starting_theta (zN pbits) in
         let k := new_sketch sm (zN lgk) (zN rfz) th0 in
         (reg_set s r (RU pol (z_to_u64 seed) k), (head_u k, [Nz th0; Nz (2 ^ zN lgk)]))
@@ -274,7 +279,7 @@ Definition step (s : st) (o e : line) : st * outline :=
           let vals := firstn (zn nv) rest in
           match skipn (zn nv) rest with
           | kind :: args =>
-              if negb (nz (length vals) =? (if pol =? 0 then 1 else pol)) then (s, (refused, [])) else
+              if negb (nz (length vals) =? arity pol) then (s, (refused, [])) else
               match canon_input kind args with
               | None => (s, (head_u k, []))
               | Some bytes =>
@@ -336,7 +341,7 @@ Definition step (s : st) (o e : line) : st * outline :=
                                                                  with cord: 0 = as is, 1 = unordered, 2 = ordered], v, ord) *)
       match reg_get s r with
       | Some (RT seed k) =>
-          if negb (nz (length v) =? (if pol =? 0 then 1 else pol)) then (s, (refused, [])) else
+          if negb (nz (length v) =? arity pol) then (s, (refused, [])) else
           let t := if cord =? 0 then compact_of unit k false else compact_of unit k (cord =? 2) in
           set_dump s r2 pol (compute_seed_hash seed) (of_theta sm t v (negb (ord =? 0)))
       | _ => (s, (refused, []))
@@ -350,7 +355,7 @@ Definition step (s : st) (o e : line) : st * outline :=
       | None => (s, (refused, []))
       end
   | 12 :: r :: pol :: lgk :: rfz :: pbits :: seed :: _ =>     (* union builder *)
-      if builder_ok lgk rfz pbits && (0 <=? pol) && (pol <=? 255) then
+      if builder_ok lgk rfz pbits && (-1 <=? pol) && (pol <=? 255) then
         let th0 := starting_theta (zN pbits) in
         (reg_set s r (RUn pol (z_to_u64 seed) (union_new sm (zN lgk) (zN rfz) th0)), (ok, [Nz th0; Nz (2 ^ zN lgk)]))
       else (s, (refused, []))
@@ -380,7 +385,7 @@ Definition step (s : st) (o e : line) : st * outline :=
       | _ => (s, (refused, []))
       end
   | 16 :: r :: pol :: seed :: _ =>                            (* intersection *)
-      if (0 <=? pol) && (pol <=? 255) then (reg_set s r (RIn pol (z_to_u64 seed) (inter_new sm)), (ok, []))
+      if (-1 <=? pol) && (pol <=? 255) then (reg_set s r (RIn pol (z_to_u64 seed) (inter_new sm)), (ok, []))
       else (s, (refused, []))
   | 17 :: r :: r2 :: mv :: _ =>                               (* intersection.update(sketch r2) *)
       match reg_get s r, reg_get s r2 with
